@@ -9,6 +9,7 @@ mkdir -p out evidence
 cd spec
 for f in *.tla; do
   case "$f" in *Trace*.tla) continue;; esac      # trace specs read an env-named input file at parse time of constants; parsed when used
+  case "$f" in XoAllocInd.tla) continue;; esac   # Apalache module (EXTENDS Apalache): parsed by apalache-mc when the allocator checks run
   java -cp /opt/veriftools/tla/tla2tools.jar:/opt/veriftools/tla/CommunityModules-deps.jar tla2sany.SANY "$f" >/tmp/sany.$$ 2>&1 || { cat /tmp/sany.$$; rm -f /tmp/sany.$$; exit 1; }
 done
 rm -f /tmp/sany.$$
